@@ -1341,6 +1341,7 @@ class Kconfig(object):
         # SYMBOL: VAL_FROM_SDKCONFIG
         symbols_with_default_values: Dict[Symbol, str] = dict()
         choices_with_default_values: Set[Choice] = set()
+        promptless_with_default_values: List[Symbol] = list()
 
         # CHOICE: (SYMBOL: VAL)*
         # When setting choice symbols one-by-one, we cannot correctly determine e.g. if the choice
@@ -1597,9 +1598,8 @@ class Kconfig(object):
                     if is_main_sdkconfig:
                         sym._sdkconfig_value = val
                         sym._loaded_as_default = True
-                    if is_main_sdkconfig and sym.str_value != sym._sdkconfig_value:
-                        if sym.name not in self.promptless_no_warn:
-                            self.report.add_record(DefaultValuesArea, sym_or_choice=sym, promptless=True)
+                        # Compared with the Kconfig value once the whole file is loaded
+                        promptless_with_default_values.append(sym)
 
                 value_is_default = False
 
@@ -1678,6 +1678,12 @@ class Kconfig(object):
 
             for choice in choices_with_default_values:
                 choice.resolve_defaults()
+
+            # The value of a promptless symbol can depend on symbols assigned later in the
+            # file (or on choice symbols, which are applied last), so compare only now.
+            for sym in promptless_with_default_values:
+                if sym.str_value != sym._sdkconfig_value and sym.name not in self.promptless_no_warn:
+                    self.report.add_record(DefaultValuesArea, sym_or_choice=sym, promptless=True)
 
             # Invalidate all cached values as we edited the configuration
             for sym in self.unique_defined_syms:
